@@ -25,6 +25,7 @@ type Engine struct {
 	Funcs     map[string]*ssa.Function // by fn.String()
 	CS        *ContractSet
 	Sentinels map[string]int // global var (pkgpath.name) -> constant id
+	SentUnexpEnd, SentModEnd int // ids [4096, SentUnexpEnd): the module's unexported sentinels; [SentUnexpEnd, SentModEnd): exported
 	GlobalIDs map[string]int
 	TimeoutMs int
 	mu        sync.Mutex
@@ -128,9 +129,39 @@ func (e *Engine) findSentinels() {
 			}
 		}
 	}
-	sort.Strings(names)
+	// numbering: the module's unexported sentinels first, then its exported ones, then everybody else's, so that "is
+	// one of the module's (unexported) sentinels" is a range test
+	rank := func(n string) int {
+		if !strings.HasPrefix(n, modulePath) {
+			return 2
+		}
+		base := n[strings.LastIndex(n, ".")+1:]
+		if base[0] >= 'A' && base[0] <= 'Z' {
+			return 1
+		}
+		return 0
+	}
+	sort.Slice(names, func(i, j int) bool {
+		if rank(names[i]) != rank(names[j]) {
+			return rank(names[i]) < rank(names[j])
+		}
+		return names[i] < names[j]
+	})
 	for i, n := range names {
 		e.Sentinels[n] = 4096 + i
+		switch rank(n) {
+		case 0:
+			e.SentUnexpEnd = 4096 + i + 1
+			e.SentModEnd = 4096 + i + 1
+		case 1:
+			e.SentModEnd = 4096 + i + 1
+		}
+	}
+	if e.SentUnexpEnd == 0 {
+		e.SentUnexpEnd = 4096
+	}
+	if e.SentModEnd < e.SentUnexpEnd {
+		e.SentModEnd = e.SentUnexpEnd
 	}
 }
 
